@@ -1,1 +1,154 @@
-fn main(){}
+//! jpgen — input generator of the differential harness (see /verif/PROTOCOL.md, DESIGN.md §4).
+//!
+//!   jpgen PROP TIER SEED [--limit N]            print operation lines for property PROP
+//!   jpgen list                                   per property, the ops it emits
+//!   jpgen selfcheck PROP TIER SEED [--limit N]  re-parse every generated line with an independent parser
+//!
+//! PROP = C01..C19, TIER = quick|thorough, SEED = u64. The output is a deterministic function of the
+//! three; the bounded-exhaustive scope comes first and does not depend on SEED. Never links the crate.
+//! JPGEN_STATS=1 prints a one-line op histogram to stderr.
+
+#[path = "../gen/rng.rs"]
+mod rng;
+#[path = "../gen/out.rs"]
+mod out;
+#[path = "../gen/strs.rs"]
+mod strs;
+#[path = "../gen/doc.rs"]
+mod doc;
+#[path = "../gen/expect.rs"]
+mod expect;
+#[path = "../gen/props.rs"]
+mod props;
+#[path = "../gen/check.rs"]
+mod check;
+
+use std::cell::RefCell;
+use std::collections::HashSet;
+use std::hash::{Hash, Hasher};
+use std::rc::Rc;
+
+fn usage() -> ! {
+    eprintln!("usage: jpgen PROP quick|thorough SEED [--limit N]\n       jpgen selfcheck PROP quick|thorough SEED [--limit N]\n       jpgen list");
+    std::process::exit(2);
+}
+
+fn parse_prop(s: &str) -> Option<u32> {
+    let n = s.strip_prefix('C')?;
+    if n.len() != 2 {
+        return None;
+    }
+    let v: u32 = n.parse().ok()?;
+    if (1..=19).contains(&v) {
+        Some(v)
+    } else {
+        None
+    }
+}
+
+struct CheckState {
+    info: check::LineInfo,
+    seen: HashSet<u64>,
+    dups: u64,
+    allowed: Vec<&'static str>,
+}
+
+fn main() {
+    let args: Vec<String> = std::env::args().skip(1).collect();
+    if args.is_empty() {
+        usage();
+    }
+    if args[0] == "list" {
+        for (p, ops) in props::PROP_OPS {
+            println!("{} {}", p, ops.join(" "));
+        }
+        return;
+    }
+    let (selfcheck, rest) = if args[0] == "selfcheck" { (true, &args[1..]) } else { (false, &args[..]) };
+    if rest.len() < 3 {
+        usage();
+    }
+    let prop = parse_prop(&rest[0]).unwrap_or_else(|| usage());
+    let thorough = match rest[1].as_str() {
+        "quick" => false,
+        "thorough" => true,
+        _ => usage(),
+    };
+    let seed: u64 = rest[2].parse().unwrap_or_else(|_| usage());
+    let mut limit = u64::MAX;
+    let mut i = 3;
+    while i < rest.len() {
+        match rest[i].as_str() {
+            "--limit" if i + 1 < rest.len() => {
+                limit = rest[i + 1].parse().unwrap_or_else(|_| usage());
+                i += 2;
+            }
+            _ => usage(),
+        }
+    }
+    let stats = std::env::var("JPGEN_STATS").map(|v| v == "1").unwrap_or(false);
+    let label = format!("{} {} seed={}", rest[0], rest[1], seed);
+    let mut sink = out::Sink::new(&label, limit, stats, !selfcheck);
+    if limit == 0 {
+        sink.finish_and_exit();
+    }
+
+    if selfcheck {
+        let allowed: Vec<&'static str> = props::PROP_OPS[(prop - 1) as usize].1.to_vec();
+        let st = Rc::new(RefCell::new(CheckState {
+            info: check::LineInfo { max_doc_nodes: 0 },
+            seen: HashSet::new(),
+            dups: 0,
+            allowed,
+        }));
+        let st2 = st.clone();
+        let lab = label.clone();
+        sink.checker = Some(Box::new(move |line: &str, n: u64| {
+            let mut s = st2.borrow_mut();
+            let s = &mut *s;
+            let res = check::check_line(line, &mut s.info).and_then(|op| {
+                if s.allowed.contains(&op) {
+                    Ok(())
+                } else {
+                    Err(format!("op {} is not in the op list of this property", op))
+                }
+            });
+            if let Err(e) = res {
+                let shown = if line.len() > 400 { &line[..400] } else { line };
+                eprintln!("selfcheck {}: MALFORMED line {}: {}\n  {}", lab, n, e, shown);
+                std::process::exit(1);
+            }
+            let mut h = std::collections::hash_map::DefaultHasher::new();
+            line.hash(&mut h);
+            if !s.seen.insert(h.finish()) {
+                s.dups += 1;
+            }
+        }));
+        let st3 = st.clone();
+        let lab = label.clone();
+        sink.on_finish = Some(Box::new(move |sk: &out::Sink| {
+            let s = st3.borrow();
+            let mut ops = sk.ops.clone();
+            ops.sort();
+            let never: Vec<&str> = s.allowed.iter().copied().filter(|a| !ops.iter().any(|(o, _)| o == a)).collect();
+            let hist: Vec<String> = ops.iter().map(|(o, n)| format!("{}={}", o, n)).collect();
+            println!(
+                "selfcheck {}: ok lines={} distinct={} dups={} avg_len={:.1} max_len={} max_doc_nodes={} ops: {}{}",
+                lab,
+                sk.count,
+                s.seen.len(),
+                s.dups,
+                if sk.count == 0 { 0.0 } else { sk.bytes as f64 / sk.count as f64 },
+                sk.max_len,
+                s.info.max_doc_nodes,
+                hist.join(" "),
+                if never.is_empty() { String::new() } else { format!(" NEVER-EMITTED: {}", never.join(",")) }
+            );
+        }));
+    }
+
+    let r = rng::Rng::new(seed, prop as u64);
+    let mut g = props::Gen::new(r, thorough, sink);
+    g.run(prop);
+    g.out.finish();
+}
